@@ -78,6 +78,11 @@ def run(tier, seed):
                         "generic": VisionsTypeset({Generic})}
             # the umbrella types Numeric and Sparse belong to no shipped typeset and overlap their siblings
             pool = [t for t in ALL if t is not Generic and str(t) not in ("Numeric", "Sparse")]
+            # C15 on Spark columns: {Generic, X} for every identity child X of Generic, and one with two children
+            kids = [t for t in pool if id_parent(t) is Generic]
+            for t in kids:
+                typesets["G+%s" % t] = VisionsTypeset({Generic, t})
+            typesets["G+Object+DateTime"] = VisionsTypeset({Generic, vt.Object, vt.DateTime})
             for i in range(3 if tier == "quick" else 25):
                 typesets["rand%d" % i] = VisionsTypeset(parent_closed_random(rng, pool))
         reqs, cases = [], []
@@ -116,6 +121,7 @@ def run(tier, seed):
                             T.StructField("m", T.DecimalType(5, 2)), T.StructField("a", T.ArrayType(T.LongType())),
                             T.StructField("n", T.NullType())])
         frames.append(spark.createDataFrame(rows * 3, sch))
+        answers = {}
         for fi, df in enumerate(frames):
             for tn, ts in typesets.items():
                 group = "verif-%d-%s" % (fi, tn)
@@ -141,6 +147,11 @@ def run(tier, seed):
                 if list(res.keys()) != df.columns:
                     fails.append({"property": "C17", "signature": "columns", "what": "result keys differ from columns", "typeset": tn})
                 tset = set(ts.types)
+                try:
+                    paths = ts.detect(df)[1]
+                    answers[(fi, tn)] = (tset, {f.name: [t for t in paths[f.name]] for f in df.schema.fields})
+                except Exception as e:  # noqa
+                    fails.append({"property": "C15", "signature": "spark-detect-raises", "what": type(e).__name__, "typeset": tn})
                 for field in df.schema.fields:
                     got = str(res[field.name])
                     cls = type(field.dataType).__name__
@@ -154,6 +165,25 @@ def run(tier, seed):
                     reqs.append({"op": "spark", "nodes": [str(n) for n in ts.relation_graph.nodes], "dt": cls})
                     cases.append({"typeset": tn, "dt": cls, "got": got})
                     nontriv.add(canon([tn, cls]))
+        # C15 (refinement) on Spark columns: for every pair A <= B of the typesets above, detect_A is the deepest type of
+        # B's detection path that belongs to A
+        n15 = 0
+        for fi, df in enumerate(frames):
+            for ta in typesets:
+                for tb in typesets:
+                    if ta == tb or (fi, ta) not in answers or (fi, tb) not in answers:
+                        continue
+                    (sa, pa), (sb, pb) = answers[(fi, ta)], answers[(fi, tb)]
+                    if not (sa <= sb and sa != sb):
+                        continue
+                    for field in df.schema.fields:
+                        proj = [t for t in pb[field.name] if t in sa]
+                        n15 += 1
+                        if not proj or pa[field.name][-1] is not proj[-1]:
+                            fails.append({"property": "C15", "signature": "spark-refine:%s" % type(field.dataType).__name__,
+                                          "what": "%s column: detect over %s gives %s, the path over %s is %s" % (
+                                              field.dataType.simpleString(), ta, pa[field.name][-1], tb, [str(t) for t in pb[field.name]]),
+                                          "typeset": [ta, tb], "column": field.name})
         # two different frames with one and the same schema, and short-lived typesets on one frame: the answer belongs
         # to (typeset, this frame), never to an earlier call
         dfa = spark.createDataFrame(rows * 2, sch)
@@ -196,7 +226,7 @@ def run(tier, seed):
                     "parent-closed); empty and non-empty frames; non-trivial = distinct (typeset, data type class)",
             "samples": cases[:3], "disagreements": disagreements, "oracle_failures": fails,
             "distribution": {"frames": len(frames), "typesets": len(typesets), "dtypes_usable": len(usable),
-                             "dtypes_skipped": skipped, "detect_calls": evals}}
+                             "dtypes_skipped": skipped, "detect_calls": evals, "refinement_pairs_checked": n15}}
 
 
 if __name__ == "__main__":
